@@ -32,3 +32,4 @@ done
 /venv/bin/python tools/py2factor.py --repo /repo --out lean/PGM/Generated >/dev/null 2>&1
 /venv/bin/python tools/py2total.py --repo /repo --out lean/PGM/Generated >/dev/null 2>&1
 /venv/bin/python tools/py2gm.py --repo /repo --out lean/PGM/Generated >/dev/null 2>&1
+/venv/bin/python tools/py2inf.py --repo /repo --out lean/PGM/Generated >/dev/null 2>&1
